@@ -147,6 +147,22 @@ pub fn realise_mesh(s: &MeshSeed, table: &[(u8, u8)], canonical: bool) -> MeshSp
             }
         }
     }
+    // every eleventh mesh fills its declaration block: further tangent elements (a usage the reader decodes into no
+    // reported field) with rising usage indices bring it to 12..16 elements - 16 is all a 17-slot block holds
+    // besides its end marker
+    if !canonical && s.seed % 11 == 0 && pairs_for(U_TANGENT, table).contains(&T_BYTEFLOAT4) {
+        let target = if (s.seed >> 8) % 2 == 0 { 16 } else { 12 + ((s.seed >> 12) % 4) as usize };
+        let mut idx = 1u8;
+        while elements.len() < target {
+            let st = (idx as usize) % stream_count as usize;
+            if extent[st] + 4 > 255 {
+                break;
+            }
+            elements.push(Element { stream: st as u8, offset: extent[st] as u8, ty: T_BYTEFLOAT4, usage: U_TANGENT, usage_index: idx });
+            extent[st] += 4;
+            idx += 1;
+        }
+    }
     let mut strides = [0u8; 3];
     let mut streams: [Vec<u8>; 3] = [vec![], vec![], vec![]];
     for st in 0..stream_count as usize {
@@ -340,6 +356,9 @@ pub fn compare_model(mdl: &MDL, exp: &Expected, spec: &ModelSpec, ctx: Option<&C
                     ctx.classf(format!("pair:{}", pair_name(e.usage, e.ty)));
                 }
                 ctx.classf(format!("streams:{}", mesh.stream_count));
+                if mesh.elements.len() >= 16 {
+                    ctx.class("declaration:16-elements");
+                }
                 if !ep.shape_names.is_empty() {
                     ctx.class("mesh-with-shape");
                 }
@@ -358,6 +377,34 @@ fn prop(c: &Case, ctx: &Ctx) -> PResult {
         None => return fail("model-rejected", "MDL::from_existing returned None for a well-formed model"),
     };
     compare_model(&mdl, &built.expected, &spec, Some(ctx))?;
+    // What a shape reports for a mesh (whatever its representation) is a function of that shape's own records and
+    // the mesh: the same model with all other shapes taken out must report the very same value for it.
+    if spec.shapes.len() >= 2 && spec.shapes.iter().enumerate().all(|(i, a)| spec.shapes.iter().skip(i + 1).all(|b| a.name != b.name)) {
+        let keep = (c.seed >> 8) as usize % spec.shapes.len();
+        let mut solo = spec.clone();
+        solo.shapes = vec![spec.shapes[keep].clone()];
+        let built2 = encode(&solo);
+        let m2 = match guard("MDL::from_existing", || MDL::from_existing(&built2.bytes))? {
+            Some(m) => m,
+            None => return fail("model-rejected", "MDL::from_existing returned None for the same model with a single shape"),
+        };
+        let name = &spec.shapes[keep].name;
+        for (li, (la, lb)) in mdl.lods.iter().zip(&m2.lods).enumerate() {
+            for (pi, (pa, pb)) in la.parts.iter().zip(&lb.parts).enumerate() {
+                let a = pa.shapes.iter().find(|s| &s.name == name).map(|s| format!("{:?}", s));
+                let b = pb.shapes.iter().find(|s| &s.name == name).map(|s| format!("{:?}", s));
+                if a != b {
+                    let (x, y) = (a.unwrap_or_default(), b.unwrap_or_default());
+                    let pos = x.bytes().zip(y.bytes()).position(|(p, q)| p != q).unwrap_or(x.len().min(y.len()));
+                    let from = pos.saturating_sub(120);
+                    return fail("shape-depends-on-other-shapes", format!("LOD {} mesh {}: shape {:?} is reported differently when the model's other {} shapes are present: …{}… vs alone …{}…", li, pi, name, spec.shapes.len() - 1, &x[from.min(x.len())..(pos + 80).min(x.len())], &y[from.min(y.len())..(pos + 80).min(y.len())]));
+                }
+                if pa.shapes.len() >= 2 && a.is_some() {
+                    ctx.class("shape-independence:mesh-with-several-shapes");
+                }
+            }
+        }
+    }
     ctx.class(if c.v6 { "version:6" } else { "version:5" });
     if c.seed % 7 == 0 {
         ctx.class("terrain-shadow-tables");
